@@ -788,6 +788,47 @@ func runC07(r *Run) {
 		}
 		r.Floor("R13", "constant-length prefix slices in precompile RequiredGas/Run", nS, 4)
 	}
+	r.Rule("R14", "PATH.call-value-dereferenced-under-a-nil-guard: the go-ethereum fork hands a precompile reached by DELEGATECALL a nil value (RunPrecompiledContract(p, caller, input, gas, nil, true)). Wherever precompile code calls a math/big method on the result of contract.Value() a test of that value against nil dominates the call — otherwise a DELEGATECALL with empty calldata panics in RunSetup, baseapp recovers it, the transaction fails with gas_used 0 and the sender has paid the whole gas limit")
+	{
+		nV := 0
+		for _, fn := range P.Funcs {
+			if !strings.Contains(fnPkgPath(fn), "/precompiles/") || strings.Contains(fnPkgPath(fn), "/testutil") || isTestSupport(P, fn) || fn.Synthetic != "" {
+				continue
+			}
+			idx := 0
+			eachCall(fn, func(ci CallInfo) {
+				if ci.PkgPath != "math/big" || ci.Recv != "Int" || len(ci.Instr.Common().Args) == 0 {
+					return
+				}
+				recv := stripValue(ci.Instr.Common().Args[0])
+				vc, ok := recv.(*ssa.Call)
+				if !ok || callInfo(vc).Name != "Value" || callInfo(vc).Recv != "Contract" {
+					return
+				}
+				nV++
+				idx++
+				guarded := false
+				for _, b := range fn.Blocks {
+					iff, ok := lastIf(b)
+					if !ok || b == ci.Instr.Block() || !dominates(b, ci.Instr.Block()) {
+						continue
+					}
+					if bo, ok := iff.Cond.(*ssa.BinOp); ok && (bo.Op == token.NEQ || bo.Op == token.EQL) && (isNilConst(bo.X) || isNilConst(bo.Y)) {
+						other := bo.X
+						if isNilConst(bo.X) {
+							other = bo.Y
+						}
+						if oc, ok := stripValue(other).(*ssa.Call); ok && callInfo(oc).Name == "Value" && callInfo(oc).Recv == "Contract" {
+							guarded = true
+						}
+					}
+				}
+				r.Check(guarded, "R14", fmt.Sprintf("%s#call-value-%s-%d-nil-guarded", fnID(fn), ci.Name, idx), P.Pos(instrPos(ci.Instr)), "a nil test of contract.Value() dominates the call",
+					"precompile code calls (*big.Int)."+ci.Name+" on contract.Value() without a nil test: under DELEGATECALL the value is nil and the call panics — the transaction fails with gas_used 0 and the sender pays the whole gas limit")
+			})
+		}
+		r.Floor("R14", "math/big calls on contract.Value() in precompile code", nV, 1)
+	}
 	r.Rule("R11", "see C03 R5 (imported): the account that is charged the up-front fee and the account that receives the refund are both MsgEthereumTx.From — which arrives empty (EthValidateBasicDecorator refuses a pre-filled one in every mode) and has one writer, the signature decorator, storing the recovered signer unconditionally: otherwise the fee is deducted from an account named by whoever assembled the wrapper while the refund goes to the signer")
 	r.Import("R11/C03.", []string{"R5"}, runC03)
 	r.Rule("R12", "see C05 R4 (imported): the refund counter is revertible StateDB state — every write to it is journalled and nothing but AddRefund/SubRefund and a journal revert writes it; a Commit that zeroes it (go-ethereum's Finalise does, but Haqq's precompiles commit in the middle of a transaction) drops the storage refunds earned before a precompile call and the sender is charged for gas he was owed")
